@@ -160,7 +160,9 @@ class Runner(IOOpsMixin):
         st["seam"] = self.seams.stats
         for f in self.seams.fault_fired:
             st["faults_fired"][f[0]] = st["faults_fired"].get(f[0], 0) + 1
+        extra = {"events": [list(e) for e in self.seams.events]} if os.environ.get("CIJSIM_EVENTS") else {}
         return {
+            **extra,
             "mode": self.mode, "client": self.solo,
             "obs": self.obs, "verdicts": self.verdicts, "stats": st,
             "event_digest": self.seams.event_digest(), "n_events": len(self.seams.events),
